@@ -2,6 +2,7 @@ package an
 
 import (
 	"fmt"
+	"go/types"
 	"strings"
 
 	"golang.org/x/tools/go/ssa"
@@ -109,6 +110,11 @@ func runC16(p *Prog, r *Report) {
 
 	r.Describe("C16.3/recv-limit", "stream Recv rejects exactly when sz<0 or (maxrx>0 and sz>maxrx), with ErrTooLong, before any allocation or payload read")
 	recvLimitRules(p, r, "C16.3/recv-limit")
+	r.Describe("C16.5/handshaker", "handshakes run on their own goroutine (a slow or silent peer never delays the accept loop); failed and late handshakes are closed")
+	handshakerRules(p, r, "C16.5/handshaker")
+	r.Describe("C16.6/handshake-validation", "malformed or mismatched headers never yield a pipe and never look like 'listener closed' to the accept loop")
+	handshakeValidation(p, r, "C16.6/handshake-validation")
+	c16PipeErrors(p, r)
 }
 
 // recvLimitRules: shared by C01.4 and C16.3.
@@ -194,4 +200,93 @@ func ComparePredAssumingNil(b *ssa.BasicBlock, domain map[string][]int64, errCal
 		}
 	}
 	return ComparePred(b, domain, assume, spec)
+}
+
+// c16PipeErrors: C16.4 — a receive/send error closes only that pipe; C16.2 peer-keyed
+// lookups are comma-ok.
+func c16PipeErrors(p *Prog, r *Report) {
+	q := NewQ(p, r)
+	R := "C16.4/error-closes-only-that-pipe"
+	r.Describe(R, "core pipe.RecvMsg/SendMsg close their own pipe on a transport error and nothing else")
+	for _, nm := range []string{"RecvMsg", "SendMsg"} {
+		f := q.Fn(R, "internal/core", "pipe", nm)
+		if !f.OK() {
+			continue
+		}
+		cl := f.Ev("call", "core.(*pipe).Close")
+		ok := len(cl) == 1 && cl[0].Args[0] == "recv"
+		if ok {
+			ok = false
+			for _, g := range cl[0].Guard {
+				if strings.HasSuffix(g, "!= nil") {
+					ok = true
+				}
+			}
+		}
+		r.Check(ok, R, "pipe."+nm+"/closes-self-on-error", cl.Pos(p), "on error: p.Close() (this pipe only)", "core pipe."+nm+" does not close exactly its own pipe on a transport error")
+		others := 0
+		for _, e := range f.Ev("call", "") {
+			if strings.HasSuffix(e.What, ".Close") && e.What != "core.(*pipe).Close" {
+				others++
+			}
+			if strings.Contains(e.What, "(*socket)") {
+				others++
+			}
+		}
+		r.Check(others == 0, R, "pipe."+nm+"/touches-nothing-else", f.Pos(), "no other Close / socket call", "core pipe."+nm+" closes or calls something beyond its own pipe")
+	}
+	R = "C16.2/peer-keyed-lookups"
+	r.Describe(R, "the result of a map lookup keyed by a peer-supplied id is used only on the comma-ok (or non-nil) edge")
+	n := 0
+	for _, fn := range p.Funcs {
+		rel, _ := p.FuncRel(fn)
+		if !strings.HasPrefix(rel, "protocol/") {
+			continue
+		}
+		EachInstr(fn, func(in ssa.Instruction) {
+			lk, ok := in.(*ssa.Lookup)
+			if !ok {
+				return
+			}
+			if _, isMap := lk.X.Type().Underlying().(*types.Map); !isMap {
+				return
+			}
+			kd := Desc(lk.Index)
+			if !strings.Contains(kd, "Uint32(") {
+				return // not keyed by bytes taken from a message
+			}
+			n++
+			key := p.FuncName(fn) + "/lookup(" + Desc(lk.X) + ")"
+			if !lk.CommaOk {
+				// value must be nil-tested before any dereference: accept only if every use is a nil comparison or guarded by != nil
+				r.Bad(R, key, p.InstrPos(in), "lookup keyed by a peer-supplied id without the comma-ok form")
+				return
+			}
+			// every use of the value component is dominated by the ok edge
+			okAll := true
+			var okv, val ssa.Value
+			for _, ref := range *lk.Referrers() {
+				if ex, isEx := ref.(*ssa.Extract); isEx {
+					if ex.Index == 1 {
+						okv = ex
+					} else {
+						val = ex
+					}
+				}
+			}
+			if val != nil && okv != nil && val.Referrers() != nil {
+				for _, use := range *val.Referrers() {
+					if !hasAtom(p.GuardStrings(use), Desc(okv)) {
+						if _, isPhi := use.(*ssa.Phi); isPhi {
+							continue
+						}
+						okAll = false
+					}
+				}
+			}
+			r.Check(okAll, R, key, p.InstrPos(in), "value used only on the ok edge", "the value of a peer-keyed lookup is used without checking ok: an unknown id dereferences nil")
+		})
+	}
+	r.Count("c16.peer_keyed_lookups", n)
+	r.Floor(R, "c16.peer_keyed_lookups", 4)
 }
